@@ -544,3 +544,61 @@ def check_acquire_guard(ctx, F, rule="E-PERM.acquire"):
                                 "a position is taken only when it is not blocked" if ok else
                                 "a position is taken for a further swap although it may be held by another worker: " + why))
     return n
+
+
+def check_level_down(ctx, F, rule="E-PERM.leveldown"):
+    """`level_down(manager, u)` (the public single swap): calls `level_swap(manager, u, u + 1, u, u + 1)` -- positions and
+    stale numbers coincide for a single swap -- and then writes the new level numbers into the nodes of *both* levels
+    (`update_level_no` on the views of u and u + 1).  Interpreted from HIR with u = 5."""
+    from lib.interp import Interp, Opaque, enumerate_runs, Unrecognised
+    import tables
+    fid = "oxidd_reorder::level_down"
+    if not ctx.anchor(rule, fid, fid in F.hir):
+        return 0
+
+    class D(tables.DDDomain):
+        def __init__(self):
+            super().__init__(F, tables.BDD)
+            self.swaps, self.updates = [], []
+
+        def call(self, it, name, f, args_e, env, e):
+            n = f.get("n", "")
+            if n.endswith("::level_swap"):
+                self.swaps.append([it.ev(a, env) for a in args_e][1:])
+                return ()
+            if n.endswith("::update_level_no"):
+                args = [it.ev(a, env) for a in args_e]
+                self.updates.append(args[1])
+                return ()
+            return super().call(it, name, f, args_e, env, e)
+
+        def method(self, it, m, e, env):
+            nm = m.rsplit("::", 1)[-1]
+            if nm == "num_levels":
+                it.recv(e, env)
+                return 100
+            if nm in ("level_unchecked", "level"):
+                it.recv(e, env)
+                (l,) = it.args(e, env)
+                return ("levelview", l)
+            return super().method(it, m, e, env)
+    holder = {}
+
+    def mk(oracle):
+        holder["d"] = D()
+        return Interp(F, holder["d"], oracle)
+    fails = []
+    n = 0
+    for trace, (status, val) in enumerate_runs(mk, lambda it: it.call_fn(fid, [Opaque("manager"), 5])):
+        n += 1
+        d = holder["d"]
+        if status != "ok":
+            fails.append("%s %s" % (status, val))
+            continue
+        if d.swaps != [[5, 6, 5, 6]]:
+            fails.append("level_swap is called with %r, expected (u, u + 1, u, u + 1) = (5, 6, 5, 6)" % (d.swaps,))
+        if sorted(x[1] for x in d.updates if isinstance(x, tuple)) != [5, 6]:
+            fails.append("level numbers are rewritten for the levels %r, expected both u and u + 1" % (d.updates,))
+    ctx.ob(rule, rule, not fails and n >= 1, "level_down (%s): %s" % (F.where(fid), " || ".join(fails) if fails else
+                                                                    "swaps (u, u + 1) and relabels both levels"))
+    return n
